@@ -119,7 +119,6 @@ extern "C" int LLVMFuzzerTestOneInput(const uint8_t *data, size_t size) {
   TR("base %s", event_base_get_method(w.base));
   // documented precondition: set the number of priorities before any event exists
   { int r0; OP("event_base_priority_init", r0 = event_base_priority_init(w.base, 1 + s.below(3))); (void)r0; }
-  int closed_fd = dup(w.pipes[0][0]); close(closed_fd);
 
   for (int step = 0; step < 48; step++) {
     int op = s.below(45);
@@ -148,7 +147,7 @@ extern "C" int LLVMFuzzerTestOneInput(const uint8_t *data, size_t size) {
         if (verif_known("C08/once-error-path-lock") && (form == 3 || form == 4)) { verif_known_skipped("C08/once-error-path-lock"); form = 0; }
         switch (form) { case 0: break; case 1: fd = w.pipes[1][0]; what = EV_READ; break; case 2: fd = w.pipes[2][1]; what = EV_WRITE; break;
           case 3: fd = w.regfd; what = EV_READ; break;           // epoll: EPERM -> -1
-          case 4: fd = closed_fd; what = EV_READ; break;          // EBADF -> -1 (epoll)
+          case 4: fd = dup(w.regfd); close(fd); what = EV_READ; break;          // EBADF -> -1 (epoll)
           case 5: what = EV_SIGNAL; fd = SIGUSR2; break;         // documented: -1
           case 6: what = EV_READ | EV_PERSIST; fd = w.pipes[1][0]; break; }
         OP("event_base_once", r = event_base_once(w.base, fd, what, once_cb, nullptr, form == 0 && s.flag() ? nullptr : &tv));
@@ -175,8 +174,23 @@ extern "C" int LLVMFuzzerTestOneInput(const uint8_t *data, size_t size) {
                    OP("evbuffer_search", (void)evbuffer_search(w.buf[b], "\r\n", 2, nullptr)); OP("evbuffer_expand", r = evbuffer_expand(w.buf[b], s.below(9000))); note(r);
                    struct evbuffer_iovec v[2]; OP("evbuffer_reserve_space", r = evbuffer_reserve_space(w.buf[b], 1 + s.below(3000), v, 2)); if (r > 0) { v[0].iov_len = v[0].iov_len ? 1 : 0; OP("evbuffer_commit_space", r = evbuffer_commit_space(w.buf[b], v, 1)); note(r); }
                    OP("evbuffer_freeze", r = evbuffer_freeze(w.buf[b], 0)); OP("evbuffer_add(frozen)", r = evbuffer_add(w.buf[b], "z", 1)); note(r); OP("evbuffer_unfreeze", r = evbuffer_unfreeze(w.buf[b], 0)); } break; }
-      case 19: { int b = s.below(3); if (w.buf[b]) { OP("evbuffer_write", r = evbuffer_write(w.buf[b], w.sp[1][0])); note(r < 0); OP("evbuffer_read", r = evbuffer_read(w.buf[b], s.flag() ? w.sp[1][1] : closed_fd, -1)); note(r < 0);
-                   OP("evbuffer_add_reference", r = evbuffer_add_reference(w.buf[b], "static", 6, nullptr, nullptr)); note(r); } break; }
+      case 19: { int b = s.below(3); if (w.buf[b]) { OP("evbuffer_write", r = evbuffer_write(w.buf[b], w.sp[1][0])); note(r < 0); { int cf = w.sp[1][1]; if (!s.flag()) { cf = dup(w.regfd); close(cf); }   /* a descriptor number that is closed NOW (the number saved at the start may have been reused by the library since) */
+                   OP("evbuffer_read", r = evbuffer_read(w.buf[b], cf, -1)); note(r < 0); }
+                   OP("evbuffer_add_reference", r = evbuffer_add_reference(w.buf[b], "static", 6, nullptr, nullptr)); note(r);
+                   // file segments (they carry their own lock): a regular file, a pipe (mmap and pread both fail when the segment is
+                   // materialised), a closed descriptor; through evbuffer_add_file or the explicit segment API.  The library owns the fd
+                   // (CLOSE_ON_FREE) in every case, so nothing is left for the harness to close.
+                   int fk = s.below(6);
+                   if (fk) { int fd = fk <= 2 ? dup(w.regfd) : fk == 3 ? dup(w.pipes[2][0]) : fk == 4 ? -1 : dup(w.regfd); if (fk == 4) { fd = dup(w.regfd); close(fd); }
+                     ev_off_t off = (ev_off_t)s.pick((const int[]){0, 1, 4096, 5000}), len = (ev_off_t)s.pick((const int[]){1, 64, 4096, 10000});
+                     if (s.flag()) { OP("evbuffer_add_file", r = evbuffer_add_file(w.buf[b], fd, off, len)); note(r); }
+                     else { unsigned fl = EVBUF_FS_CLOSE_ON_FREE | (s.flag() ? EVBUF_FS_DISABLE_MMAP : 0) | (s.flag() ? EVBUF_FS_DISABLE_SENDFILE : 0); struct evbuffer_file_segment *seg = nullptr;
+                       OP("evbuffer_file_segment_new", seg = evbuffer_file_segment_new(fd, off, fk == 5 ? -1 : len, fl));
+                       if (!seg) { G->failed_calls++; if (fk != 4) close(fd); }
+                       else { // code-derived corner (buffer.c; evbuffer_add_file relies on it): a FAILED evbuffer_add_file_segment releases the caller's reference
+                              OP("evbuffer_add_file_segment", r = evbuffer_add_file_segment(w.buf[b], seg, 0, s.flag() ? -1 : 1)); note(r); if (r != 0) seg = nullptr;
+                              if (seg && s.flag()) { int o = (b + 1) % 3; if (w.buf[o]) { OP("evbuffer_add_file_segment", r = evbuffer_add_file_segment(w.buf[o], seg, 0, -1)); note(r); if (r != 0) seg = nullptr; } }
+                              if (seg) OP("evbuffer_file_segment_free", evbuffer_file_segment_free(seg)); } } } } break; }
       case 20: { int b = s.below(3); if (w.buf[b]) { OP("evbuffer_free", evbuffer_free(w.buf[b])); w.buf[b] = nullptr; } break; }
       // ---- bufferevents (thread-safe)
       case 21: if (!w.bev[0] && !w.bev[1]) { struct bufferevent *pr[2] = {nullptr, nullptr}; int opt = BEV_OPT_THREADSAFE | (s.flag() ? BEV_OPT_DEFER_CALLBACKS : 0) | (s.flag() ? BEV_OPT_UNLOCK_CALLBACKS | BEV_OPT_DEFER_CALLBACKS : 0);
